@@ -238,9 +238,15 @@ class Check:
             self.violation("gate", "forbidden construct in the development: " + "; ".join(bad[:5]),
                            dict(kind="gate", hits=bad), found_input=False)
         ok, log = coq_make()
+        import gencoq
+        mine = []
         for pr in TRANSLATOR_PROBLEMS:
-            self.notes.append("translator: " + pr)
-        self.translator_problems = list(TRANSLATOR_PROBLEMS)
+            serves = gencoq.SERVES.get(pr.split(":")[0])
+            if serves is None or self.prop in serves:
+                mine.append(pr)          # a translator that serves this property (or all of them) could not follow the source
+            else:
+                self.notes.append("translator problem outside this property (%s): %s" % (",".join(serves), pr))
+        self.translator_problems = mine
         if not ok:
             self.notes.append("coq make reported errors")
             open(os.path.join(self.workdir, "coq_make.log"), "w").write(log)
